@@ -3,6 +3,7 @@ package checks
 import (
 	"context"
 	"fmt"
+	"math/big"
 	"math/rand"
 	"os"
 	"os/exec"
@@ -12,6 +13,8 @@ import (
 	"strings"
 	"sync"
 	"time"
+	"verif/corpus"
+	"verif/gen"
 
 	"github.com/zmap/zlint/v3/lint"
 
@@ -62,7 +65,10 @@ func c05Case(c *mon.Ctx, i int, record bool) {
 	var o *mon.Obj
 	var desc string
 	var isSeed bool
-	if base := len(W.Objs) + c.Pick(12000, 400000) + directedCount(c)/c.Pick(6, 1); i >= base+c05PairCases(c) {
+	if base := len(W.Objs) + c.Pick(12000, 400000) + directedCount(c)/c.Pick(6, 1); i >= base+c05PairCases(c)+c05LongCases {
+		c05CfgHistory(c, i-base-c05PairCases(c)-c05LongCases)
+		return
+	} else if i >= base+c05PairCases(c) {
 		c05Long(c, i-base-c05PairCases(c))
 		return
 	} else if i >= base {
@@ -246,7 +252,7 @@ func init() {
 			return nil
 		},
 		Cases: func(c *mon.Ctx) int {
-			return nSeeds + c.Pick(12000, 400000) + directedCount(c)/c.Pick(6, 1) + c05PairCases(c)
+			return nSeeds + c.Pick(12000, 400000) + directedCount(c)/c.Pick(6, 1) + c05PairCases(c) + c05LongCases + c05CfgCases(c)
 		},
 		RunCase: func(c *mon.Ctx, i int) { c05Case(c, i, c.Only >= 0 || i%c05FreshEvery == 0) },
 		Aux:     map[string]func(c *mon.Ctx){"io": c05IOAux},
@@ -254,6 +260,11 @@ func init() {
 			gates := mutGate(r, 500)
 			gates = append(gates, c05Fresh(c, r, ev)...)
 			gates = append(gates, c05IOPhase(c, r, ev)...)
+			ev.Coverage["configuration_history_steps"] = r.Counters["configuration_history_steps"]
+			ev.Coverage["long_repetition_runs"] = r.Counters["long_repetition_runs"]
+			if r.Counters["configuration_history_steps"] < 500 {
+				gates = append(gates, "too few configuration-switching history steps compared")
+			}
 			if r.Counters["repetitions_compared"] < 1000 {
 				gates = append(gates, "too few repetitions compared")
 			}
@@ -430,4 +441,142 @@ func c05Long(c *mon.Ctx, k int) {
 		}
 	}
 	c.R.Count("long_repetition_runs", 1)
+}
+
+// ---- configuration-switching histories ----
+//
+// "Same object, same registry, same configuration => same result, whatever was linted before" includes runs of
+// the SAME object under OTHER configurations before. One registry is switched through the documents below in
+// every order (24 permutations, each walked twice); every (object, document) result is compared with the first
+// result this process saw for that pair - and, because the permutations start with different documents, a verdict
+// remembered from a run under another configuration shows whichever direction it leaks in. Every third history
+// uses a freshly filtered registry per step instead of switching one.
+
+var c05CfgDocs = []cfgDoc{
+	{"none", ""},
+	{"low", "[e_rsa_fermat_factorization]\nRounds = 0\n[e_crl_next_update_invalid]\nSubscriberCRL = true\n[e_subj_contains_html_entities]\nSkip = false\n[e_subj_orgunit_in_ca_cert]\nCrossCert = false\n"},
+	{"high", "[e_rsa_fermat_factorization]\nRounds = 1000\n[e_crl_next_update_invalid]\nSubscriberCRL = false\n[e_subj_contains_html_entities]\nSkip = true\n[e_subj_orgunit_in_ca_cert]\nCrossCert = true\n"},
+	{"mid", "[e_rsa_fermat_factorization]\nRounds = 10\n"},
+}
+
+var (
+	c05CfgObjs  []*mon.Obj
+	c05CfgOnce  sync.Once
+	c05CfgFirst = map[string]mon.Snap{}
+	c05CfgMu    sync.Mutex
+)
+
+func c05CfgBuild(c *mon.Ctx) {
+	c05CfgOnce.Do(func() {
+		c11BuildObjs(c)
+		for _, o := range c11Objs {
+			if strings.HasPrefix(o.Name, "gen/cfg/") {
+				c05CfgObjs = append(c05CfgObjs, o)
+			}
+		}
+		// close-prime keys whose Fermat index lies between the Rounds values of the documents
+		for k := 0; k < 14; k++ { // the generator draws the index from {0, 1, 2, 3, 50, 99, 100, 101, 150, 999, 1000, 1001, 5000}
+			idx := k
+			p, q := fermatPair(int64(2100+k), []int{2, 7, 12, 0, 5, 3, 8, 13, 1, 6, 11, 4, 9, 14}[k])
+			if p.Cmp(q) == 0 {
+				continue
+			}
+			sp := gen.TLSLeaf(gen.D(2024, 3, 1), "www.example.com")
+			sp.SPKI = gen.RSASPKI(new(big.Int).Mul(p, q), big.NewInt(65537))
+			if o, _ := mon.ParseObj(corpus.Cert, fmt.Sprintf("gen/cfghist/fermat-%d", idx), sp.DER()); o != nil {
+				c05CfgObjs = append(c05CfgObjs, o)
+			}
+		}
+		for _, i := range W.ByKind[corpus.CRL] {
+			c05CfgObjs = append(c05CfgObjs, W.Objs[i])
+		}
+		for _, o := range W.Objs {
+			if o.Kind == corpus.Cert && (strings.Contains(o.Name, "ermat") || strings.Contains(o.Name, "html") || strings.Contains(o.Name, "Html") || strings.Contains(o.Name, "orgunit") || strings.Contains(o.Name, "OrgUnit")) {
+				c05CfgObjs = append(c05CfgObjs, o)
+			}
+		}
+	})
+}
+
+func c05CfgCases(c *mon.Ctx) int { return 24 * c.Pick(2, 8) }
+
+func permOf(n, idx int) []int {
+	items := make([]int, n)
+	for i := range items {
+		items[i] = i
+	}
+	var out []int
+	for i := n; i > 0; i-- {
+		f := 1
+		for j := 2; j < i; j++ {
+			f *= j
+		}
+		k := (idx / f) % i
+		idx %= f
+		out = append(out, items[k])
+		items = append(items[:k], items[k+1:]...)
+	}
+	return out
+}
+
+func c05CfgHistory(c *mon.Ctx, k int) {
+	c05CfgBuild(c)
+	order := permOf(len(c05CfgDocs), k%24)
+	fresh := (k/24)%3 == 2
+	shared, _ := lint.GlobalRegistry().Filter(lint.FilterOptions{NameFilter: regexpAll})
+	day := today()
+	for round := 0; round < 2; round++ {
+		for _, di := range order {
+			d := c05CfgDocs[di]
+			reg := shared
+			if fresh {
+				reg, _ = lint.GlobalRegistry().Filter(lint.FilterOptions{ExcludeNames: []string{"e_ca_is_ca"}})
+			}
+			reg.SetConfiguration(mustConfig(d.Text))
+			for oi, o0 := range c05CfgObjs {
+				o := o0
+				if (oi+round)%2 == 1 {
+					if o = o0.Reparse(); o == nil {
+						continue
+					}
+				}
+				rs, pv, _ := o.Lint(reg)
+				c.R.Count("evaluations", 1)
+				if pv != nil || rs == nil {
+					continue
+				}
+				s := mon.SnapOf(rs)
+				if fresh { // the two registries select different lints; compare what both ran
+					delete(s, "e_ca_is_ca")
+				}
+				key := o0.Name + "|" + d.Label
+				c05CfgMu.Lock()
+				first, ok := c05CfgFirst[key]
+				if !ok {
+					c05CfgFirst[key] = s
+				}
+				c05CfgMu.Unlock()
+				c.R.Count("configuration_history_steps", 1)
+				if !ok {
+					continue
+				}
+				ref := mon.Snap{}
+				for n, v := range first {
+					if n != "e_ca_is_ca" {
+						ref[n] = v
+					}
+				}
+				cmp := mon.Snap{}
+				for n, v := range s {
+					if n != "e_ca_is_ca" {
+						cmp[n] = v
+					}
+				}
+				for _, df := range dropClock(day, mon.Diff(ref, cmp, false, false)) {
+					name := strings.SplitN(df, ":", 2)[0]
+					c.V("configuration-history|"+name, fmt.Sprintf("lint %s on %s under configuration %q gives a different result than the first time this process linted it under that configuration - in between it was linted under other configurations (order %v, round %d): %s", name, o0.Name, d.Label, order, round, clipS(df, 300)), name, inputs(o0), map[string]any{"configuration": d.Text})
+				}
+			}
+		}
+	}
 }
